@@ -256,6 +256,8 @@ class WorkCalendarDiv(IWorkCalendar):
             if units is None:
                 units = c_units
             else:
+                if c_units == 0:
+                    raise RuntimeError(f"Division by 0: a divisor calendar has no units on {date}")
                 units /= c_units
         return units
 
